@@ -7,15 +7,21 @@ for d in sorted(glob.glob('/verif/seeded/*/')):
     conf = m.get('confirmed', {})
     ok = all(conf.values()) if conf else False
     run = m.get('checks_run', [])
-    det = m.get('detected_by', [])
-    # results of earlier runs of other checks are kept in 'also_detected_by' / 'also_missed_by'
-    det = sorted(set(det) | set(m.get('also_detected_by', [])))
-    miss = sorted((set(run) | set(m.get('also_missed_by', []))) - set(det))
+    det = sorted(m.get('detected_by', []))
+    miss = sorted(set(run) - set(det))
     summ = m.get('summary', '').replace('|', '/').replace('\n', ' ')
     if len(summ) > 150:
         summ = summ[:147] + '...'
     rows.append((m.get('name', os.path.basename(d[:-1])), summ, ', '.join(det) or '—', ', '.join(miss) or '', 'yes' if ok else 'NO'))
-print('| seeded change | what was changed | caught by (quick tier) | ran, did not flag | confirmed |')
-print('|---|---|---|---|---|')
+lines = ['| seeded change | what was changed | caught by (quick tier) | ran, did not flag | confirmed |', '|---|---|---|---|---|']
 for r in rows:
-    print('| %s | %s | %s | %s | %s |' % r)
+    lines.append('| %s | %s | %s | %s | %s |' % r)
+table = '\n'.join(lines)
+import sys
+if len(sys.argv) > 1 and sys.argv[1] == '--update':
+    d = open('/verif/DESIGN.md').read()
+    a, b = '<!-- seeded-table-begin -->', '<!-- seeded-table-end -->'
+    i, j = d.index(a) + len(a), d.index(b)
+    open('/verif/DESIGN.md', 'w').write(d[:i] + '\n' + table + '\n' + d[j:])
+else:
+    print(table)
